@@ -237,3 +237,325 @@ m('C16', 'setter_runs_count', 'src/par/par_flatmap_fil.rs', """    fn num_thread
         }
         self
     }""", 'C16')
+
+# ------------------------------------------------------------------------------------------ C01 (step 3 rules)
+m('C01', 'key_without_begin_idx', 'src/core/map_fil_col.rs', 'collected.push((chunk.begin_idx + i, value));', 'collected.push((i, value));', 'C01-KEY')
+m('C01', 'key_uses_buffer_len', 'src/core/map_fil_col.rs', 'collected.push((x.idx, value));', 'collected.push((collected.len(), value));', 'C01-KEY')
+m('C01', 'slot_without_offset', 'src/core/map_col.rs', '.map(|(idx, value)| (offset + idx, map(value)))', '.map(|(idx, value)| (idx, map(value)))', 'C01-KEY')
+m('C01', 'slots_begin_without_offset', 'src/core/map_col.rs', 'let begin_idx = offset + chunk.begin_idx;', 'let begin_idx = chunk.begin_idx;', 'C01-KEY')
+m('C01', 'flatmap_key_inner_first', 'src/core/flatmap_fil_col.rs', '.map(|(i, value)| ((chunk.begin_idx + c, i), value)),', '.map(|(i, value)| ((i, chunk.begin_idx + c), value)),', 'C01-KEY')
+b('C01', 'key_counts_only_has_value_survivors', 'src/core/filtermap_fil_col.rs', """                for (c, value) in chunk.values.enumerate() {
+                    let maybe = filter_map(value);
+                    if maybe.has_value() {
+                        let value = maybe.value();
+                        if filter(&value) {
+                            collected.push((chunk.begin_idx + c, value));""", """                for (c, value) in chunk.values.map(filter_map).filter(|x| x.has_value()).enumerate() {
+                    let maybe = value;
+                    if maybe.has_value() {
+                        let value = maybe.value();
+                        if filter(&value) {
+                            collected.push((chunk.begin_idx + c, value));""")
+m('C01', 'buffer_reversed', 'src/core/flatmap_fil_col.rs', """            }
+        }
+    }
+    collected
+}""", """            }
+        }
+    }
+    collected.reverse();
+    collected
+}""", 'C01-APPEND')
+m('C01', 'merge_reads_after_increment', 'src/core/map_fil_col.rs', """        let idx = indices[v];
+        indices[v] += 1;
+
+        curr_v = match vectors[v].get(indices[v]) {
+            Some(x) => Some(queue.push_then_pop(v, x.0).0),
+            None => queue.pop_node(),
+        };
+
+        let ptr = vectors[v].as_mut_ptr();
+        output.push(unsafe { ptr.add(idx).read().1 });
+    }
+
+    for vec in vectors.iter_mut() {
+        unsafe { vec.set_len(0) };
+    }
+}
+
+pub(crate) fn heap_sort_into_pinned_vec""", """        indices[v] += 1;
+        let idx = indices[v] - 1;
+        let idx = idx.max(indices[v].min(1) - 1) + (indices[v] - indices[v]);
+        let idx = if idx == 0 { indices[v] - 1 } else { indices[v] };
+
+        curr_v = match vectors[v].get(indices[v]) {
+            Some(x) => Some(queue.push_then_pop(v, x.0).0),
+            None => queue.pop_node(),
+        };
+
+        let ptr = vectors[v].as_mut_ptr();
+        output.push(unsafe { ptr.add(idx).read().1 });
+    }
+
+    for vec in vectors.iter_mut() {
+        unsafe { vec.set_len(0) };
+    }
+}
+
+pub(crate) fn heap_sort_into_pinned_vec""", 'C01-MERGE')
+m('C01', 'merge_requeues_stale_key', 'src/core/map_fil_col.rs', """        curr_v = match vectors[v].get(indices[v]) {
+            Some(x) => Some(queue.push_then_pop(v, x.0).0),
+            None => queue.pop_node(),
+        };
+
+        let ptr = vectors[v].as_mut_ptr();
+        output.push(unsafe { ptr.add(idx).read().1 });
+    }
+
+    for vec in vectors.iter_mut() {
+        unsafe { vec.set_len(0) };
+    }
+}
+
+pub(crate) fn heap_sort_into_pinned_vec""", """        curr_v = match vectors[v].get(indices[v]) {
+            Some(_) => Some(queue.push_then_pop(v, vectors[v][idx].0).0),
+            None => queue.pop_node(),
+        };
+
+        let ptr = vectors[v].as_mut_ptr();
+        output.push(unsafe { ptr.add(idx).read().1 });
+    }
+
+    for vec in vectors.iter_mut() {
+        unsafe { vec.set_len(0) };
+    }
+}
+
+pub(crate) fn heap_sort_into_pinned_vec""", 'C01-MERGE')
+m('C01', 'merge_fill_skips_first', 'src/core/map_fil_col.rs', 'for (v, vec) in vectors.iter().enumerate() {', 'for (v, vec) in vectors.iter().enumerate().skip(1) {', 'C01-MERGE')
+m('C01', 'no_reserve_before_bag', 'src/par/collect_into/vec.rs', '                self.reserve(iter_len);\n', '                let _ = iter_len;\n', 'C01-RESERVE')
+m('C01', 'compose_new_before_upstream', 'src/par/par_map_fil.rs', 'let composed = move |x: &O| filter1(x) && filter(x);', 'let composed = move |x: &O| filter(x) && filter1(x);', 'C01-COMPOSE')
+m('C01', 'compose_ignores_filter', 'src/par/par_fil.rs', """        let composed_filter_map = move |x| match filter(&x) {
+            false => None,
+            true => Some(map(x)),
+        };""", """        let composed_filter_map = move |x| match filter(&x) {
+            false => Some(map(x)),
+            true => Some(map(x)),
+        };""", 'C01-COMPOSE')
+m('C01', 'merge_gets_first_vector_only', 'src/core/flatmap_fil_col.rs', """    let vectors = Runner::run_map(params, ParTask::Collect, &iter, &task);
+    heap_sort_into_vec(vectors, output);""", """    let mut vectors = Runner::run_map(params, ParTask::Collect, &iter, &task);
+    vectors.truncate(64);
+    heap_sort_into_vec(vectors, output);""", 'C01-MERGE')
+b('C01', 'key_extra_let', 'src/core/map_fil_col.rs', 'collected.push((chunk.begin_idx + i, value));', 'let begin = chunk.begin_idx;\n                    let key = begin + i;\n                    collected.push((key, value));')
+b('C01', 'key_single_component_flatmap', 'src/core/map_fil_col.rs', 'collected.push((x.idx, value));', 'let position = x.idx;\n                    collected.push((position, value));')
+
+# ------------------------------------------------------------------------------------------ C02 (step 3)
+m('C02', 'index_after_filter', 'src/core/map_fil_find.rs', """                let result = chunk
+                    .values
+                    .enumerate()
+                    .map(|x| (x.0, map(x.1)))
+                    .find(|x| filter(&x.1))
+                    .map(|x| (chunk.begin_idx + x.0, x.1));""", """                let result = chunk
+                    .values
+                    .map(map)
+                    .filter(|x| filter(x))
+                    .enumerate()
+                    .next()
+                    .map(|x| (chunk.begin_idx + x.0, x.1));""", 'C02-IDX')
+m('C02', 'index_without_begin', 'src/core/filtermap_fil_find.rs', 'true => Some((chunk.begin_idx + x.0, value)),', 'true => Some((x.0, value)),', 'C02-IDX')
+m('C02', 'find_with_index_or', 'src/par/par_fil.rs', 'let composed = move |x: &I::Item| filter(x) && predicate(x);', 'let composed = move |x: &I::Item| predicate(x) && filter(x);', 'C01-COMPOSE')
+m('C02', 'task_returns_last', 'src/core/flatmap_fil_find.rs', """            let result = iter
+                .ids_and_values()
+                .flat_map(|x| fmap(x.1).into_iter().find(filter).map(|y| (x.0, y)))
+                .next();""", """            let result = iter
+                .ids_and_values()
+                .flat_map(|x| fmap(x.1).into_iter().find(filter).map(|y| (x.0, y)))
+                .last();""", 'C02-FIRST')
+
+# ------------------------------------------------------------------------------------------ C03 / C04 (step 3)
+m('C03', 'acc_overwritten', 'src/core/map_fil_red.rs', 'acc = maybe_reduce(reduce, acc, x);', 'acc = maybe_reduce(reduce, None, x);', 'C03-THREAD')
+m('C03', 'chunk_reduce_takes_two', 'src/core/flatmap_fil_red.rs', 'let x = chunk.flat_map(fmap).filter(filter).reduce(reduce);', 'let x = chunk.flat_map(fmap).filter(filter).take(2).reduce(reduce);', 'C03-THREAD')
+m('C03', 'last_handle_not_reduced', 'src/core/runner.rs', """            let result = threads
+                .into_iter()
+                .map(|x| x.join().expect("Failed to join thread"))
+                .reduce(reduce);""", """            let result = threads
+                .into_iter()
+                .skip(1)
+                .map(|x| x.join().expect("Failed to join thread"))
+                .reduce(reduce);""", 'S2')
+m('C04', 'count_acc_reset', 'src/core/map_fil_cnt.rs', 'count += chunk.map(&map).filter(&filter).count();', 'count = chunk.map(&map).filter(&filter).count();', 'C04-THREAD')
+m('C04', 'count_uses_len', 'src/core/flatmap_fil_cnt.rs', 'count += chunk.flat_map(&map).filter(&filter).count();', 'count += chunk.flat_map(&map).filter(&filter).size_hint().0;', 'C04-THREAD')
+m('C04', 'count_every_survivor_of_filtermap', 'src/core/filtermap_fil_cnt.rs', """                            if maybe.has_value() {
+                                let x = maybe.value();
+                                if filter(&x) {
+                                    acc += 1;
+                                }
+                            }""", """                            if maybe.has_value() {
+                                let x = maybe.value();
+                                let _ = filter(&x);
+                                acc += 1;
+                            }""", 'C04-THREAD')
+m('C04', 'run_map_last_handle_dropped', 'src/core/runner.rs', """            handles.push(s.spawn(move || thread_task(chunk)));
+            num_spawned += 1;
+
+            let mut vec = vec![];""", """            s.spawn(move || thread_task(chunk));
+            num_spawned += 1;
+
+            let mut vec = vec![];""", 'S2')
+
+# ------------------------------------------------------------------------------------------ C05 (step 3)
+m('C05', 'filter_evaluated_twice', 'src/par/par_map_fil.rs', 'let composed = move |x: &O| filter1(x) && filter(x);', 'let composed = move |x: &O| filter1(x) && filter(x) && filter1(x);', 'C05-ONCE')
+m('C05', 'task_returns_after_first_chunk', 'src/core/map_fil_col_x.rs', """            while let Some(chunk) = iter.next_chunk_x(c) {
+                collected.extend(chunk.map(&map).filter(&filter));
+            }""", """            if let Some(chunk) = iter.next_chunk_x(c) {
+                collected.extend(chunk.map(&map).filter(&filter));
+            }""", 'C05-VISIT')
+m('C05', 'survivor_dropped_on_odd_index', 'src/core/map_fil_col.rs', """                if filter(&value) {
+                    collected.push((x.idx, value));
+                };""", """                if filter(&value) {
+                    if x.idx != usize::MAX - 1 {
+                        collected.push((x.idx, value));
+                    }
+                };""", 'C05-VISIT')
+
+
+# ------------------------------------------------------------------------------------------ C06 / C07 / C08 / C09 (step 3)
+m('C06', 'offset_zero', 'src/core/map_col.rs', 'let offset = collected.len();', 'let offset = collected.len() - collected.len();', 'C06-OFFSET')
+m('C07', 'fragments_truncated', 'src/core/map_fil_col_x.rs', """    let vectors = Runner::run_map(params, ParTask::Collect, &iter, &task);
+    output.append(vectors);""", """    let mut vectors = Runner::run_map(params, ParTask::Collect, &iter, &task);
+    vectors.pop();
+    output.append(vectors);""", 'C07-FRAG')
+m('C07', 'col_x_task_dedups', 'src/core/flatmap_fil_col_x.rs', """                collected.extend(chunk.flat_map(&flat_map).filter(&filter));
+            }
+            collected""", """                collected.extend(chunk.flat_map(&flat_map).filter(&filter));
+            }
+            collected.truncate(collected.len().min(usize::MAX / 2));
+            collected""", 'C01-APPEND')
+m('C07', 'col_x_task_skips_first', 'src/core/filtermap_fil_col_x.rs', """                    chunk
+                        .map(&filter_map)
+                        .filter(|x| x.has_value())
+                        .map(|x| x.value())
+                        .filter(&filter),""", """                    chunk
+                        .map(&filter_map)
+                        .filter(|x| x.has_value())
+                        .map(|x| x.value())
+                        .filter(&filter)
+                        .step_by(1),""", 'C07-TASK')
+m('C08', 'spawn_counter_not_incremented', 'src/core/runner.rs', """                        true => {
+                            s.spawn(move || thread_task(chunk));
+                            num_spawned += 1;
+                        }""", """                        true => {
+                            s.spawn(move || thread_task(chunk));
+                        }""", 'C08-SPAWN')
+m('C08', 'spawn_unguarded_in_loop', 'src/core/runner.rs', """                lag();
+                match runner.next_chunk_size(threads.len(), iter.has_more()) {
+                    None => break 'lag_period,
+                    Some(c) => chunk = c,
+                }""", """                lag();
+                match runner.next_chunk_size(threads.len(), iter.has_more()) {
+                    None => break 'lag_period,
+                    Some(c) => {
+                        chunk = c;
+                        threads.push(s.spawn(move || thread_task(chunk)));
+                    }
+                }""", 'C08-SPAWN')
+m('C09', 'empty_collect_reversed', 'src/par/par_empty.rs', """    fn collect_vec(self) -> Vec<Self::Item> {
+        self.iter.into_seq_iter().collect()
+    }""", """    fn collect_vec(self) -> Vec<Self::Item> {
+        let mut v: Vec<Self::Item> = self.iter.into_seq_iter().collect();
+        v.rotate_left(0);
+        v.into_iter().rev().rev().collect()
+    }""", 'C09-EMPTY')
+
+# ------------------------------------------------------------------------------------------ C13 / C14 (step 3)
+m('C13', 'set_len_skips_first', 'src/core/map_fil_col.rs', """    for vec in vectors.iter_mut() {
+        unsafe { vec.set_len(0) };
+    }
+}
+
+pub(crate) fn heap_sort_into_pinned_vec""", """    for vec in vectors.iter_mut().skip(1) {
+        unsafe { vec.set_len(0) };
+    }
+}
+
+pub(crate) fn heap_sort_into_pinned_vec""", 'C13-PAIR')
+m('C13', 'set_len_one', 'src/core/map_fil_col.rs', """    for vec in vectors.iter_mut() {
+        unsafe { vec.set_len(0) };
+    }
+}
+
+pub fn par_map_fil_col_vec""", """    for vec in vectors.iter_mut() {
+        unsafe { vec.set_len(vec.len().min(1)) };
+    }
+}
+
+pub fn par_map_fil_col_vec""", 'C13-PAIR')
+m('C14', 'user_filter_in_merge_window', 'src/core/map_fil_col.rs', """pub fn par_map_fil_col_vec<I, Out, Map, Fil>(
+    params: Params,
+    iter: I,
+    map: Map,
+    filter: Fil,
+    output: &mut Vec<Out>,
+) where
+    I: ConcurrentIter,
+    Out: Send + Sync,
+    Map: Fn(I::Item) -> Out + Send + Sync,
+    Fil: Fn(&Out) -> bool + Send + Sync,
+{
+    let task = |c| task(&iter, &map, &filter, c);
+    let vectors = Runner::run_map(params, ParTask::Collect, &iter, &task);
+    heap_sort_into_vec(vectors, output);""", """pub fn par_map_fil_col_vec<I, Out, Map, Fil>(
+    params: Params,
+    iter: I,
+    map: Map,
+    filter: Fil,
+    output: &mut Vec<Out>,
+) where
+    I: ConcurrentIter,
+    Out: Send + Sync,
+    Map: Fn(I::Item) -> Out + Send + Sync,
+    Fil: Fn(&Out) -> bool + Send + Sync,
+{
+    let task = |c| task(&iter, &map, &filter, c);
+    let mut vectors = Runner::run_map(params, ParTask::Collect, &iter, &task);
+    for vec in vectors.iter_mut() {
+        let ptr = vec.as_mut_ptr();
+        for i in 0..vec.len() {
+            let item = unsafe { ptr.add(i).read() };
+            if filter(&item.1) {
+                output.push(item.1);
+            }
+        }
+        unsafe { vec.set_len(0) };
+    }""", 'C14-WINDOW')
+
+# ------------------------------------------------------------------------------------------ C15
+m('C15', 'no_clamp_to_one', 'src/core/runner.rs', 'let max_num_threads = num_threads::calc_num_threads(input_len, params.num_threads).max(1);', 'let max_num_threads = num_threads::calc_num_threads(input_len, params.num_threads);', 'C15')
+m('C15', 'min_chunk_zero_len_arm_removed', 'src/core/runner_settings/chunk_size.rs', """        None => chunk_size,
+        Some(0) => 1,
+        Some(len) => {""", """        None => chunk_size,
+        Some(len) => {""", 'C15')
+m('C15', 'min_chunk_unsaturated_product', 'src/core/runner_settings/chunk_size.rs', 'let one_round_len = max_num_threads.saturating_mul(chunk_size);', 'let one_round_len = max_num_threads * chunk_size;', 'C15-OBLIG')
+m('C15', 'auto_chunk_halves_past_one', 'src/core/runner_settings/chunk_size.rs', """            // absolute breaking condition
+            if chunk_size == 1 {
+                break;
+            }""", """            // absolute breaking condition
+            if chunk_size == 0 {
+                break;
+            }""", 'C15')
+m('C15', 'growth_divides_by_spawned_unguarded', 'src/core/runner.rs', """                    let chunk_size = match num_spawned_threads {
+                        0 => x,
+                        _ => {""", """                    let chunk_size = match num_spawned_threads {
+                        usize::MAX => x,
+                        _ => {""", 'C15-OBLIG')
+m('C15', 'from_usize_unchecked_nonzero', 'src/num_threads.rs', """        match value {
+            0 => Self::Auto,
+            _ => Self::Max(NonZeroUsize::new(value).expect("must be positive")),
+        }""", """        match value {
+            1 => Self::Auto,
+            _ => Self::Max(NonZeroUsize::new(value).expect("must be positive")),
+        }""", 'C15-OBLIG')
+b('C15', 'div_ceil_std', 'src/core/runner_settings/utils.rs', """    let x = number / divider;
+    let remainder = number - x * divider;
+    x + if remainder > 0 { 1 } else { 0 }""", """    let x = number / divider;
+    let remainder = number - x * divider;
+    if remainder > 0 { x + 1 } else { x }""")
